@@ -76,3 +76,45 @@ theorem wrapRC_isAdjRe {A : Op ℂ} (hA : IsAdjRe A) : IsAdjRe (Op.wrapRC creal 
   rw [hA (vre x) y, re_ip_vre_left]
 
 end Scico.Adjoint
+
+namespace Scico.Adjoint
+open Finset
+
+/-! ### the N-d DFT pair (`fftn` / `ifftn` over several axes): Kronecker product of 1-D transforms -/
+
+section kron
+variable {K : Type} [Field K] [StarRing K]
+
+/-- number of entries of an array of the given dims -/
+def dimsProd : List Nat → Nat
+  | [] => 1
+  | d :: ds => d * dimsProd ds
+
+/-- entry `(f, j)` of the matrix of `fftn` over axes of lengths `ds` (row-major flattening) with the roots `zs`
+    (`z_a = exp(−2πi/d_a)`): `Π_a z_a ^ (j_a · f_a)` over the digits of `j`, `f` -/
+def kronF : List Nat → List K → Nat → Nat → K
+  | d :: ds, z :: zs, f, j =>
+      z ^ ((j / dimsProd ds % d) * (f / dimsProd ds % d)) * kronF ds zs (f % dimsProd ds) (j % dimsProd ds)
+  | _, _, _, _ => 1
+
+/-- the conjugate of an entry is the entry of the transposed matrix with the inverse roots -/
+theorem star_kronF (ds : List Nat) (zs : List K) (hz : ∀ z ∈ zs, star z = z⁻¹) (f j : Nat) :
+    star (kronF ds zs f j) = kronF ds (zs.map (·⁻¹)) j f := by
+  induction ds generalizing zs f j with
+  | nil => cases zs <;> simp [kronF]
+  | cons d ds ih =>
+    cases zs with
+    | nil => simp [kronF]
+    | cons z zs =>
+      simp only [kronF, List.map_cons, star_mul', star_pow]
+      rw [hz z (by simp), ih zs (fun w hw => hz w (by simp [hw])), Nat.mul_comm]
+
+/-- `fftn`/`ifftn` over any number of axes (norm=None: `ifftn = N⁻¹·conj-transpose`) is a pair as `C01_circ_dft_domain`
+    requires -/
+theorem kron_pair (ds : List Nat) (zs : List K) (hz : ∀ z ∈ zs, star z = z⁻¹) (N : Nat) (i f : Nat) :
+    (N : K)⁻¹ * kronF ds (zs.map (·⁻¹)) i f = (N : K)⁻¹ * star (kronF ds zs f i) := by
+  rw [star_kronF ds zs hz f i]
+
+end kron
+
+end Scico.Adjoint
